@@ -6,6 +6,7 @@ import M3d.Model.DeformTargets
 import M3d.Model.ArapOp
 import M3d.Model.ArapLoop
 import M3d.Drv.C10Lin
+import M3d.Drv.C10Rot
 /-!
 Line-protocol handler for C10.  Core-only.
 
@@ -296,6 +297,11 @@ def handleArapLoop (l : Line) : Option String := do
 def handle3 (l : Line) : Option String := do
   if l.kind == "arapop3" then return (← handleArapOp l)
   if l.kind == "araploop3" then return (← handleArapLoop l)
+  if l.kind == "araprot3" then
+    -- the best-fit rotations of ARAP (`M3d.ArapRot`, `M3d/Drv/C10Rot.lean`)
+    if l.status ≠ "ok" then
+      return (if l.status = "timeout" then "FAIL terminates=0" else "FAIL no-panic=0")
+    return (← C10Rot.handle l.params)
   if l.kind == "araplin3" then
     -- the linear step of ARAP (`M3d.ArapLin`, `M3d/Drv/C10Lin.lean`)
     if l.status ≠ "ok" then
